@@ -24,20 +24,22 @@ Definition py_ne (a b : fp) : result bool := if strict_subkind (fkind b) (fkind 
 (* ---- well-formed fingerprints (the class invariant the documentation states) ---------------------- *)
 (* indices strictly increasing and inside [0, bits); for count/float fingerprints the keys of the counts dict are
    the indices, in the same order, and every count is positive; a CountFingerprint's counts are integers in canonical
-   form (what the counts setter `int(v)` produces); a bit fingerprint has no counts dict. *)
+   form (what the counts setter `int(v)` produces); a bit fingerprint has no counts dict; the length is not negative. *)
 Record wf_fp (a : fp) : Prop := mk_wf {
   wf_sorted : ssorted (fidx a);
   wf_range : forall i, In i (fidx a) -> 0 <= i < fbits a;
   wf_keys : match fkind a with KBit => fcnt a = [] | _ => ckeys (fcnt a) = fidx a end;
   wf_pos : forall kv, In kv (fcnt a) -> (0 < snd kv)%Q;
-  wf_int : fkind a = KCount -> forall kv, In kv (fcnt a) -> Qden (snd kv) = 1%positive }.
+  wf_int : fkind a = KCount -> forall kv, In kv (fcnt a) -> Qden (snd kv) = 1%positive;
+  wf_bits : 0 <= fbits a }.
 
 (* the same, without positivity of the counts (what subtraction can produce) *)
 Record wf_fp_signed (a : fp) : Prop := mk_wfs {
   wfs_sorted : ssorted (fidx a);
   wfs_range : forall i, In i (fidx a) -> 0 <= i < fbits a;
   wfs_keys : match fkind a with KBit => fcnt a = [] | _ => ckeys (fcnt a) = fidx a end;
-  wfs_int : fkind a = KCount -> forall kv, In kv (fcnt a) -> Qden (snd kv) = 1%positive }.
+  wfs_int : fkind a = KCount -> forall kv, In kv (fcnt a) -> Qden (snd kv) = 1%positive;
+  wfs_bits : 0 <= fbits a }.
 
 Fixpoint sorted_ltb (l : list Z) : bool :=
   match l with
@@ -50,7 +52,8 @@ Definition wf_fpb (a : fp) : bool :=
   sorted_ltb (fidx a) && forallb (fun i => (0 <=? i) && (i <? fbits a)) (fidx a)
   && match fkind a with KBit => match fcnt a with [] => true | _ => false end | _ => list_eqb Z.eqb (ckeys (fcnt a)) (fidx a) end
   && forallb (fun kv => negb (Qle_bool (snd kv) 0)) (fcnt a)
-  && match fkind a with KCount => forallb (fun kv => Pos.eqb (Qden (snd kv)) 1) (fcnt a) | _ => true end.
+  && match fkind a with KCount => forallb (fun kv => Pos.eqb (Qden (snd kv)) 1) (fcnt a) | _ => true end
+  && (0 <=? fbits a).
 
 (* same content: everything `==` is documented to look at (the name is not part of it) *)
 Definition cmap_equiv (a b : cmap) : Prop := Forall2 (fun x y => fst x = fst y /\ Qeq (snd x) (snd y)) a b.
